@@ -21,11 +21,12 @@ Case split (environment, concrete per condition):
   XH_HDOM     size of the value domain of leaves that end up hashed by set() (2 or 3)
   XH_ROOT     c02_output: slot | list | tuple | set | dict
   XH_RICH     comma list of slot indices drawing from the rich option list (the others draw from the poor list)
-  XH_CHUNK    "i/n": slot 0 only draws from the i-th of n chunks of its option list
+  XH_CHUNK    "i/n": the first rich slot (slot 0 if none) only draws from the i-th of n chunks of its option list
   XH_WIDTH    c02_output: fixed width (1 or 2) of the root container, default symbolic
-  XH_PK       c02_argnodes / c02_callargs: "p,k" or "sym<n>" (p, k symbolic with p + k <= n)
+  XH_PK       c02_argnodes / c02_callargs: "p,k" | "sym<n>" (p, k symbolic with p + k <= n) | "eq<n>" (p symbolic, k = n - p)
   XH_MODE     c02_argnodes: ins | copy0 | copy1 | copy2 ; XH_VARIANTS: quick | full
-  XH_SLOTS    c02_callargs: medium | poor
+  XH_SLOTS    c02_callargs: medium | large | poor
+  XH_POOR     c02_output: min | std (option list of the slots that are not rich)
   XH_KIND     c02_unpack: iterable kind 0 literal list | 1 call->list | 2 call->generator | 3 call->tuple (default: symbolic)
   XH_UNPACK_N c02_unpack: pick (n decoded to a concrete int first) | sym (the symbolic n is handed to Plan.unpack)
   XH_REAL_ENGINE=1  keep uberjob's real thread engine (used only by the concrete stub validation)
@@ -54,6 +55,7 @@ PK = os.environ.get("XH_PK", "sym3")
 MODE = os.environ.get("XH_MODE", "ins")
 VARIANTS = os.environ.get("XH_VARIANTS", "quick")
 SLOTS = os.environ.get("XH_SLOTS", "medium")
+POOR = os.environ.get("XH_POOR", "min")
 KIND = os.environ.get("XH_KIND", "")
 UNPACK_N = os.environ.get("XH_UNPACK_N", "pick")
 WORKERS = int(os.environ.get("XH_WORKERS", "1"))
@@ -65,11 +67,18 @@ NAMES = "bdac"  # keyword names by index: neither alphabetical nor reverse alpha
 
 
 def _pick(v, n):
-    """Concrete value of the code v if 0 <= v < n, else None (one fork per value)."""
-    for i in range(n):
-        if v == i:
-            return i
-    return None
+    """Concrete value of the code v if 0 <= v < n, else None: a binary decision tree over the symbolic int, so CrossHair
+    still explores one path per value but asks the solver only ~log2(n) questions per path."""
+    if n <= 0 or v < 0 or v >= n:
+        return None
+    lo, hi = 0, n
+    while hi - lo > 1:
+        mid = (lo + hi) // 2
+        if v < mid:
+            hi = mid
+        else:
+            lo = mid
+    return lo
 
 
 def _perm(keys):
@@ -91,6 +100,12 @@ def _perm(keys):
 
 def _pk(p, k):
     """(p, k) concrete: from XH_PK='p,k' or decoded from the symbolic p, k with p + k <= n (XH_PK='sym<n>')."""
+    if PK.startswith("eq"):  # p symbolic, k = n - p
+        n = int(PK[2:])
+        pp = _pick(p, n + 1)
+        if pp is None:
+            return None
+        return pp, n - pp
     if PK.startswith("sym"):
         n = int(PK[3:])
         pp = _pick(p, n + 1)
@@ -115,10 +130,10 @@ def _variants(n):
     rms = [None] + list(range(n))
     if VARIANTS == "full":
         return [(s, r, d) for s in shares for r in rms for d in (0, 1, 2)]
-    out = [(s, None, 0) for s in shares] + [(None, r, 0) for r in range(n)] + [(None, None, 1), (None, None, 2)]
-    if n >= 2:
-        out += [((0, n - 1), 0, 2), ("all", n - 1, 1), ((0, 1), n - 1, 0)]
-    return out
+    if n < 2:
+        return [(None, r, d) for r in rms for d in (0, 1, 2)]
+    return [(None, None, 0), ((0, n - 1), None, 0), ("all", None, 0), (None, 0, 0), (None, n - 1, 0), (None, None, 1), (None, None, 2),
+            ((0, n - 1), 0, 2), ((n - 2, n - 1), n - 1, 1)]
 
 
 def c02_argnodes(p: int, k: int, s0: int, s1: int, s2: int, s3: int, variant: int) -> bool:
@@ -229,14 +244,15 @@ FREE_RICH = [("L", x) for x in ALL_LEAVES] + _conts(LIST) + _conts(TUPLE) + _con
 KEY_RICH = [("L", x) for x in HASHABLE_LEAVES] + _conts(TUPLE)
 POOR3 = [("L", CONST), ("L", NODE_A), ("L", NODE_B)]
 POOR2 = [("L", CONST), ("L", NODE_A)]
-MEDIUM = [("L", x) for x in ALL_LEAVES] + [
-    ("C", LIST, ()), ("C", LIST, (CONST, CONST)), ("C", LIST, (NODE_A, CONST)), ("C", TUPLE, (CONST, NODE_B)),
-    ("C", SET, (NODE_A,)), ("D", ((CONST, NODE_A),)), ("D", ((NODE_B, CONST),)),
+MEDIUM = [("L", x) for x in (CONST, NODE_A, NODE_B, LIT, BOX, MYLIST)] + [
+    ("C", LIST, (CONST, CONST)), ("C", LIST, (NODE_A, CONST)), ("C", TUPLE, (CONST, NODE_B)), ("D", ((CONST, NODE_A),)),
 ]
+LARGE = MEDIUM + [("L", MYTUPLE), ("C", LIST, ()), ("C", SET, (NODE_A,)), ("D", ((NODE_B, CONST),))]
+ARG_OPTS = {"medium": MEDIUM, "large": LARGE, "poor": POOR3}
 
 
 def _chunk(opts, slot):
-    if slot == 0 and CHUNK:
+    if CHUNK and slot == (min(RICH) if RICH else 0):
         i, n = (int(x) for x in CHUNK.split("/"))
         return [o for j, o in enumerate(opts) if j % n == i]
     return opts
@@ -388,17 +404,27 @@ def matches(c, spec, got):
 
 # =============================================================================== (2a) run(output=structure)
 def _slot_opts(slot, ctx):
-    """Option list of a slot.  ctx: 'free' | 'key' | 'selem' | 'dval'."""
+    """Option list of a slot.  ctx: 'free' | 'key' | 'selem' | 'dval'.  A slot named in XH_RICH draws from the rich list;
+    the others from a poor list: XH_POOR=std -> const/node_a/node_b; XH_POOR=min -> the 1-2 options that still allow
+    every collision pattern with the rich slot (two different nodes, two constants, node vs constant)."""
     rich = slot in RICH
-    if ctx == "free":
-        opts = FREE_RICH if rich else POOR3
-    elif ctx == "dval":
-        opts = FREE_RICH if rich else POOR2
-    elif ctx == "key":
-        # a rich dict value is paired with 2-option keys, everything else with 3-option keys
-        opts = KEY_RICH if rich else (POOR2 if (RICH & {1, 3}) else POOR3)
+    if rich:
+        opts = FREE_RICH if ctx in ("free", "dval") else KEY_RICH
+    elif POOR == "std":
+        if ctx == "dval":
+            opts = POOR2
+        elif ctx == "key":
+            # a rich dict value is paired with 2-option keys, everything else with 3-option keys
+            opts = POOR2 if (RICH & {1, 3}) else POOR3
+        else:
+            opts = POOR3
+    elif ROOT == "dict":
+        opts = [[("L", NODE_A)] if (RICH & {1, 3}) else [("L", NODE_A), ("L", CONST)],
+                [("L", CONST)],
+                [("L", NODE_B), ("L", CONST)],
+                [("L", NODE_A)]][slot]
     else:
-        opts = KEY_RICH if rich else POOR3
+        opts = [("L", CONST), ("L", NODE_B)]
     return _chunk(opts, slot)
 
 
@@ -463,7 +489,7 @@ def c02_callargs(p: int, k: int, o0: int, o1: int, o2: int, o3: int, va: int, vb
     codes = [o0, o1, o2, o3]
     specs = []
     for s in range(P + K):
-        opts = _chunk(MEDIUM if SLOTS == "medium" else POOR3, s)
+        opts = _chunk(ARG_OPTS[SLOTS], s)
         i = _pick(codes[s], len(opts))
         if i is None:
             return True
